@@ -339,18 +339,25 @@ def absent_data(ctx, rid):
                 return out
             tp, tn = targets(pos), targets(neg)
             common = set(tp) & set(tn)
-            if not neg or not common:
+
+            def stand_in(body):
+                """A call in the branch receives the recorded length (zero-filled stand-in of that many bytes)."""
+                local_len = {t.id for s_ in body for x in ast.walk(s_) if isinstance(x, ast.Assign) and isinstance(x.value, ast.Subscript) and const_str(x.value.slice) == "length"
+                             for t in x.targets if isinstance(t, ast.Name)}
+                for s_ in body:
+                    for x in ast.walk(s_):
+                        if isinstance(x, ast.Call) and not (isinstance(x.func, ast.Attribute) and x.func.attr in ("debug", "info", "warning", "log_msg", "close_out", "update")):
+                            for a in list(x.args) + [k.value for k in x.keywords]:
+                                for y in ast.walk(a):
+                                    if (isinstance(y, ast.Name) and (y.id in ("total", "length") or y.id in local_len)) or (isinstance(y, ast.Attribute) and y.attr == "length") \
+                                            or (isinstance(y, ast.Subscript) and const_str(y.slice) == "length"):
+                                        return x
+                return None
+            si = stand_in(neg) if neg else None
+            if not neg or si is None:
                 ctx.violated(rid, fn, "when the payload file is absent nothing stands in for it: its pieces are skipped instead of being compared as zeros, so a removed file does not lower the result", st.test)
                 continue
-            ok = True
-            for k in common:
-                v = tn[k]
-                mentions_len = any((isinstance(x, ast.Name) and x.id in ("total", "length")) or (isinstance(x, ast.Attribute) and x.attr == "length") or
-                                   (isinstance(x, ast.Subscript) and const_str(x.slice) == "length") for x in ast.walk(v))
-                if not (isinstance(v, ast.Call) and mentions_len):
-                    ok = False
-            ctx.decide(rid, fn, ok, "absent file: %s is produced from the recorded length (zero-filled stand-in)" % ", ".join(sorted(common)),
-                       "absent file: the stand-in for %s does not cover the recorded length" % ", ".join(sorted(common)), st.test)
+            ctx.holds(rid, fn, "absent file: %s produces a zero-filled stand-in of the recorded length" % norm(si)[:60], st.test)
     ctx.floor("existence tests on payload paths in the checkers", 2, n)
 
 
